@@ -146,6 +146,32 @@ class Rec:
         self.cur = None
         self.cur_dest = 0
         self.closed = 0
+        self.timeline = []                     # ("req", delivered-dict) | ("del", uid) | ("set", uid), in real order
+        self.obj_log = {id(s): [] for _, s in units}   # per slave-context OBJECT: tags executed on it
+        self.objs = list(units)                # keeps every slave context alive (ids stay unique)
+        self.born = {id(s): dump(s) for _, s in units}
+        self.context = None
+        self.edits = []
+        self.read_no = 0
+
+    def before_read(self):
+        """apply the hosted-set edits scheduled before the next read, on the LIVE server context"""
+        i = self.read_no
+        self.read_no += 1
+        for e in self.edits:
+            if e["before_read"] != i:
+                continue
+            if e["op"] == "del":
+                del self.context[e["uid"]]
+                self.timeline.append(("del", e["uid"]))
+            else:
+                s = mk_slave(e["kind"])
+                self.objs.append((e["uid"], s))
+                self.ctx_uid[id(s)] = e["uid"]
+                self.obj_log[id(s)] = []
+                self.born[id(s)] = dump(s)
+                self.context[e["uid"]] = s
+                self.timeline.append(("set", e["uid"]))
 
     def hook_execute(self, obj, name):
         """instance-level wrapper around handler.execute / protocol._execute"""
@@ -158,10 +184,12 @@ class Rec:
                  "fc": int(request.function_code), "cls": type(request).__name__,
                  "dest": rec.cur_dest, "results": [], "write": write_of(request), "escaped": None}
             rec.delivered.append(d)
+            rec.timeline.append(("req", d))
             real_exec = request.execute
 
             def exec_wrapper(context, *a):
                 u = rec.ctx_uid.get(id(context), -1)
+                rec.obj_log.setdefault(id(context), []).append(tag)
                 try:
                     resp = real_exec(context, *a)
                 except Exception as e:  # noqa: BLE001 — observation, re-raised unchanged
@@ -254,6 +282,7 @@ def _run_sync_stream(cls, rec, server, reads):
 
         def recv(self, n):
             if self.chunks:
+                rec.before_read()
                 return self.chunks.pop(0)
             h.running = False
             return b""
@@ -280,6 +309,7 @@ def _run_sync_udp(cls, rec, server, reads):
             rec.wrote(data, idx_of(addr))
             return len(data)
     for data, sender in reads:
+        rec.before_read()
         h = cls.__new__(cls)
         h.request = (data, USock())
         h.client_address = addr_of(sender)
@@ -319,6 +349,7 @@ def _run_aio(rec, server, reads, datagram):
         rec.hook_execute(h, "execute")
         rec.hook_framer(h.framer)
         for r in reads:
+            rec.before_read()
             if datagram:
                 data, sender = r
                 rec.cur_dest = sender
@@ -353,6 +384,7 @@ def _run_tw_tcp(rec, context, framer, cfg, reads):
     rec.hook_execute(p, "_execute")
     rec.hook_framer(p.framer)
     for r in reads:
+        rec.before_read()
         try:
             p.dataReceived(r)
         except Exception as e:  # noqa: BLE001
@@ -378,6 +410,7 @@ def _run_tw_udp(rec, context, framer, cfg, reads, direct):
     `_execute(request, addr)`, so that `_execute`/`_send` are still tied."""
     p = tw_udp_protocol(rec, context, framer, cfg)
     for data, sender in reads:
+        rec.before_read()
         rec.cur_dest = sender
         if not direct:
             try:
@@ -396,14 +429,17 @@ def _run_tw_udp(rec, context, framer, cfg, reads, direct):
                 rec.escaped.append(type(e).__name__)
 
 
-def run(frontend, framer, cfg, hosted, reads, direct=False):
+def run(frontend, framer, cfg, hosted, reads, direct=False, edits=None):
     """cfg: {"single","bcast","ignore"}; hosted: [(uid, kind)];
-    reads: stream: [bytes]; datagram: [(bytes, sender_index)]"""
+    reads: stream: [bytes]; datagram: [(bytes, sender_index)];
+    edits: [{"before_read": i, "op": "del"|"set", "uid": u, "kind": k}] applied to the live ModbusServerContext
+    (`del context[u]` / `context[u] = <new slave context>`) just before read i is handed to the front-end"""
     from pymodbus.server import sync
     reset_mcb()
     context, units = mk_context(cfg["single"], hosted)
-    before = {u: dump(s) for u, s in units}
     rec = Rec(units)
+    rec.context = context
+    rec.edits = list(edits or [])
     try:
         if frontend == "sync_tcp":
             _run_sync_stream(sync.ModbusConnectedRequestHandler, rec, _server_ns(context, framer, cfg), reads)
@@ -423,13 +459,13 @@ def run(frontend, framer, cfg, hosted, reads, direct=False):
             raise ValueError(frontend)
     finally:
         reset_mcb()
-    rec.after = {u: dump(s) for u, s in units}
-    rec.before = before
-    rec.changed = [u for u, _ in units if rec.after[u] != before[u]]
-    rec.logs = {u: [] for u, _ in units}
-    for d in rec.delivered:
-        for u, _r in d["results"]:
-            rec.logs.setdefault(u, []).append(d["tag"])
+    rec.initial_units = list(units)
+    # the hosted set NOW, through the public iteration API (dict order), not through slaves()
+    rec.units = [(0, units[0][1])] if cfg["single"] else [(int(u), s) for u, s in context]
+    rec.after = {u: dump(s) for u, s in rec.units}
+    rec.before = {u: rec.born.get(id(s)) for u, s in rec.units}
+    rec.changed = [u for u, _ in rec.units if rec.after[u] != rec.before[u]]
+    rec.logs = {u: list(rec.obj_log.get(id(s), [])) for u, s in rec.units}
     return rec
 
 
@@ -470,6 +506,98 @@ def pdu_menu(r, framer):
     if k < 0.97 or framer != "socket":
         return "slaveid", bytes([17]), False
     return "illegal", bytes([0x55, 1, 2]), False
+
+
+def clean_pdu(framer, uid, make):
+    """first pdu of make(0), make(1), ... acceptable for the framing (binary: no '{' '}' inside)"""
+    for i in range(64):
+        pdu = make(i)
+        if framer != "binary" or binary_clean(uid, pdu):
+            return pdu
+    raise RuntimeError("no clean frame")
+
+
+def edit_histories(fe, framer):
+    """enumerated histories that EDIT the hosted set of the live server object between reads: at least one request is
+    handled before the edit (any cache of the hosted set is warm), then broadcast and unicast requests follow.
+    hosted {1,2,3}; one request per read; after every edit one harmless read lets front-ends that fetch the unit list
+    before blocking in recv catch up."""
+    tw = fe.startswith("tw_")
+    out = []
+
+    def w6(uid, n):
+        return {"label": "w6", "uid": uid, "tid": 0x100 + n, "listen": False,
+                "pdu": clean_pdu(framer, uid, lambda i: bytes([6]) + struct.pack(">HH", (n + i) % NREG, 0x0101 * (n + 1) + i)).hex()}
+
+    def r3(uid, n):
+        return {"label": "r3", "uid": uid, "tid": 0x200 + n, "listen": False,
+                "pdu": clean_pdu(framer, uid, lambda i: bytes([3]) + struct.pack(">HH", i % NREG, 1)).hex()}
+
+    H = {
+        "delete": ([w6(1, 0), r3(3, 1), w6(0, 2), w6(3, 3), r3(2, 4), w6(1, 5)],
+                   [{"before_read": 1, "op": "del", "uid": 2, "kind": "ok"}]),
+        "add": ([w6(1, 0), r3(1, 1), w6(5, 2), w6(0, 3), r3(5, 4), w6(3, 5)],
+                [{"before_read": 1, "op": "set", "uid": 5, "kind": "ok"}]),
+        "reregister": ([w6(2, 0), r3(1, 1), r3(2, 2), r3(3, 3), w6(2, 4), w6(0, 5), w6(3, 6)],
+                       [{"before_read": 1, "op": "del", "uid": 2, "kind": "ok"},
+                        {"before_read": 3, "op": "set", "uid": 2, "kind": "ok"}]),
+        "replace": ([w6(2, 0), r3(1, 1), r3(2, 2), w6(0, 3), w6(2, 4)],
+                    [{"before_read": 1, "op": "set", "uid": 2, "kind": "ok"}]),
+        "delete-first-add-last": ([w6(0, 0), r3(2, 1), w6(0, 2), w6(1, 3), r3(7, 4), w6(7, 5), w6(0, 6)],
+                                  [{"before_read": 1, "op": "del", "uid": 1, "kind": "ok"},
+                                   {"before_read": 4, "op": "set", "uid": 7, "kind": "ok"}]),
+    }
+    for name, (reqs, edits) in H.items():
+        for bcast in ((False,) if tw else (True, False)):
+            for ignore in (False, True):
+                out.append({"fe": fe, "framer": framer, "cfg": {"single": False, "bcast": bcast, "ignore": ignore},
+                            "hosted": [[1, "ok"], [2, "ok"], [3, "ok"]], "reqs": [dict(q) for q in reqs],
+                            "groups": [[i] for i in range(len(reqs))], "mode": "edit:" + name,
+                            "direct": fe == "tw_udp", "edits": [dict(e) for e in edits]})
+    return out
+
+
+def add_random_edits(r, sc):
+    """turn a multi-unit scenario into a history with 1-3 hosted-set edits between reads (never before the first read)"""
+    n = len(sc["reqs"])
+    if sc["cfg"]["single"] or n < 3:
+        return sc
+    sc["groups"] = [[i] for i in range(n)]
+    sc["mode"] = "edit:random"
+    cur = [u for u, _ in sc["hosted"]]
+    gone = []
+    edits = []
+    pos = sorted(r.sample(range(1, n), min(n - 1, r.choice([1, 1, 2, 3]))))
+    for p_ in pos:
+        k = r.random()
+        deletable = [u for u in cur if 0 <= u <= 247]
+        if k < 0.45 and len(deletable) > 0:
+            u = r.choice(deletable)
+            cur.remove(u)
+            gone.append(u)
+            edits.append({"before_read": p_, "op": "del", "uid": u, "kind": "ok"})
+        elif k < 0.65 and gone:
+            u = gone.pop(r.randrange(len(gone)))
+            cur.append(u)
+            edits.append({"before_read": p_, "op": "set", "uid": u, "kind": "ok"})
+        elif k < 0.8 and deletable:
+            u = r.choice(deletable)       # replace the slave object in place
+            edits.append({"before_read": p_, "op": "set", "uid": u, "kind": r.choice(["ok", "ok", "raise"])})
+        else:
+            u = r.choice([x for x in (0, 3, 5, 9, 100, 246, 247) if x not in cur] or [r.randrange(1, 247)])
+            if u in cur:
+                continue
+            cur.append(u)
+            edits.append({"before_read": p_, "op": "set", "uid": u, "kind": "ok"})
+        # aim the following requests at the edited id, the ids after it, and broadcast
+        for i in range(p_, n):
+            if r.random() < 0.6:
+                q = sc["reqs"][i]
+                uid = r.choice([0, u, u] + cur)
+                if sc["framer"] != "binary" or binary_clean(uid, bytes.fromhex(q["pdu"])):
+                    q["uid"] = uid
+    sc["edits"] = edits
+    return sc
 
 
 def gen_scenario(r, fe, framer, multi_bias=0.6, max_reqs=6):
@@ -531,7 +659,8 @@ def reads_of(sc):
 
 
 def run_scenario(sc):
-    return run(sc["fe"], sc["framer"], sc["cfg"], [tuple(h) for h in sc["hosted"]], reads_of(sc), direct=sc.get("direct", False))
+    return run(sc["fe"], sc["framer"], sc["cfg"], [tuple(h) for h in sc["hosted"]], reads_of(sc),
+               direct=sc.get("direct", False), edits=sc.get("edits"))
 
 
 def _z(n):
@@ -556,27 +685,33 @@ def cfg_term(cfg):
 
 
 def case_term(sc, rec):
-    reqs = []
-    for d in rec.delivered:
+    evs = []
+    for kind, d in rec.timeline:
+        if kind == "del":
+            evs.append("EvDel %s" % _z(d))
+            continue
+        if kind == "set":
+            evs.append("EvSet %s" % _z(d))
+            continue
         res = []
         for u, rr in d["results"]:
             if rr[0] == "ok":
                 res.append("(%s, ROk %s %s %s)" % (_z(u), _z(rr[1]), _b(rr[2]), _optz(rr[3])))
             else:
                 res.append("(%s, RRaise %s)" % (_z(u), rr[1]))
-        reqs.append("{| c_tag := %s; c_tid := %s; c_uid := %s; c_fc := %s; c_dest := %s; c_results := %s |}" % (
+        evs.append("EvReq {| c_tag := %s; c_tid := %s; c_uid := %s; c_fc := %s; c_dest := %s; c_results := %s |}" % (
             _z(d["tag"]), _z(d["tid"]), _z(d["uid"]), _z(d["fc"]), _z(d["dest"]), _l(res)))
     outs = []
     for s in rec.sent:
         outs.append("{| oo_for := %s; oo_out := {| o_tid := %s; o_uid := %s; o_fc := %s; o_code := %s; o_dest := %s |} |}" % (
             _z(-1 if s["for"] is None else s["for"]), _z(s["tid"]), _z(s["uid"]), _z(s["fc"]), _optz(s["code"]),
             _z(-1 if s["dest"] is None else s["dest"])))
-    hosted = [u for u, _ in rec.units]
-    logs = ["(%s, %s)" % (_z(u), _l(_z(t) for t in rec.logs[u])) for u in hosted]
+    hosted = [u for u, _ in rec.initial_units]
+    logs = ["(%s, %s)" % (_z(u), _l(_z(t) for t in rec.logs[u])) for u, _ in rec.units]
     escaped = any(d["escaped"] for d in rec.delivered)
-    return ('{| k_fe := "%s"%%string; k_cfg := %s; k_hosted := %s; k_reqs := %s; k_outs := %s; k_logs := %s; '
+    return ('{| k_fe := "%s"%%string; k_cfg := %s; k_hosted := %s; k_evs := %s; k_outs := %s; k_logs := %s; '
             'k_changed := %s; k_escaped := %s |}') % (
-        sc["fe"], cfg_term(sc["cfg"]), _l(_z(u) for u in hosted), _l(reqs), _l(outs), _l(logs),
+        sc["fe"], cfg_term(sc["cfg"]), _l(_z(u) for u in hosted), _l(evs), _l(outs), _l(logs),
         _l(_z(u) for u in rec.changed), _b(escaped))
 
 
@@ -585,7 +720,9 @@ def observation(rec):
     return {"delivered": [{k: (v if k != "results" else [[u, list(x[:4])] for u, x in v]) for k, v in d.items()}
                           for d in rec.delivered],
             "sent": [{k: (v.hex() if isinstance(v, bytes) else v) for k, v in s.items()} for s in rec.sent],
-            "logs": {str(u): t for u, t in rec.logs.items()}, "changed": rec.changed, "escaped": rec.escaped}
+            "logs": {str(u): t for u, t in rec.logs.items()}, "changed": rec.changed, "escaped": rec.escaped,
+            "timeline": [[k, (d["tag"] if k == "req" else d)] for k, d in rec.timeline],
+            "hosted_now": [u for u, _ in rec.units]}
 
 
 def sanity(rec):
